@@ -61,9 +61,10 @@ def _make_tuplecoord_spec(typ: Type[TupleCoord], struct_fmt: str,
         # Special case, we only want to pack some of the components.
         # Mostly for Quaternion since we don't actually need to send W.
         def _packer(x):
-            if isinstance(x, TupleCoord):
-                x = x.data(needed_elems)
-            return struct_obj.pack(*x[:needed_elems])
+            if not isinstance(x, TupleCoord):
+                # Let the coord type decide how to leave components out
+                x = typ(*x)
+            return struct_obj.pack(*x.data(needed_elems)[:needed_elems])
     return lambda x: typ(*struct_obj.unpack(x)), _packer
 
 
@@ -76,9 +77,10 @@ def _make_llsd_tuplecoord_spec(typ: Type[TupleCoord], needed_elems: Optional[int
         # Special case, we only want to pack some of the components.
         # Mostly for Quaternion since we don't actually need to send W.
         def _packer(x):
-            if isinstance(x, TupleCoord):
-                x = x.data(needed_elems)
-            return list(x[:needed_elems])
+            if not isinstance(x, TupleCoord):
+                # Let the coord type decide how to leave components out
+                x = typ(*x)
+            return list(x.data(needed_elems)[:needed_elems])
     return lambda x: typ(*x), _packer
 
 
